@@ -86,7 +86,7 @@ def run(pid, tier, seed, jobs=None, only=None):
             rc = kani_second_opinion(pid, rc)
         return rc
     if pid == 'C16':
-        return R.run_check(pid, tier, seed, EN.specs_query(tier), opts={'builder': 'build_query', 'runner': 'run_query'}, jobs=jobs)
+        return R.run_check(pid, tier, seed, EN.specs_query(tier), opts={'builder': 'build_query', 'runner': 'run_query', 'extra': 'then_cancel'}, jobs=jobs)
     print('unknown or not-applicable property ' + pid)
     return 2
 
